@@ -140,6 +140,36 @@ func (t *termCtx) expr(v reflect.Value) []string {
 		return append([]string{tokStr(v.FieldByName("Op")), pre}, t.expr(v.FieldByName("Expr"))...)
 	case "GroupingExpr":
 		return append([]string{"G"}, t.expr(v.FieldByName("Expr"))...)
+	case "UserCallExpr":
+		info, ok := t.prog.LookupFunc(v.FieldByName("Name").String())
+		if !ok || info.Native || info.Index >= len(t.prog.Compiled.Functions) {
+			return t.bad("native-call")
+		}
+		fn := t.prog.Compiled.Functions[info.Index]
+		args := v.FieldByName("Args")
+		var scalars, refs []string
+		ns, nr := 0, 0
+		for i := 0; i < args.Len(); i++ {
+			if i < len(fn.Arrays) && fn.Arrays[i] {
+				a := deref(args.Index(i))
+				if !a.IsValid() || a.Type().Name() != "VarExpr" {
+					return t.bad("array-arg-shape")
+				}
+				sc, idx, ok := t.array(a.FieldByName("Name").String())
+				if !ok {
+					return t.bad("array-arg-not-array")
+				}
+				refs = append(refs, sc, idx)
+				nr++
+			} else {
+				scalars = append(scalars, t.expr(args.Index(i))...)
+				ns++
+			}
+		}
+		out := []string{"K", fmt.Sprint(info.Index), fmt.Sprint(fn.NumScalars), fmt.Sprint(ns)}
+		out = append(out, scalars...)
+		out = append(out, fmt.Sprint(nr))
+		return append(out, refs...)
 	}
 	return t.bad(name)
 }
@@ -205,6 +235,8 @@ func (t *termCtx) stmt(v reflect.Value) []string {
 		return append([]string{"x"}, optExpr(v.FieldByName("Status"))...)
 	case "BlockStmt":
 		return append([]string{"k"}, t.list(v.FieldByName("Body"))...)
+	case "ReturnStmt":
+		return append([]string{"r"}, optExpr(v.FieldByName("Value"))...)
 	}
 	return t.bad(name)
 }
